@@ -655,7 +655,7 @@ Lemma advance_rule_lemma hhea hmtx nl ng upem gid :
             /\ horizontal_advance upem t gid = Ok (advance_spec hmtx nl gid)
             /\ side_bearing t gid = lsb_spec hmtx nl gid.
 Proof.
-  intros Hh [[W1 W2] W3] Hg. unfold load_hmtx. rewrite Hh. unfold parse_hmtx.
+  intros Hh [[W1 W2] W3] Hg. unfold load_hmtx. rewrite Hh. rewrite Z.max_r by lia. unfold parse_hmtx.
   assert (Hlen : length hmtx = Z.to_nat (zlen hmtx)) by (unfold zlen; lia).
   destruct (zlen hmtx <? nl * 4) eqn:E1; [apply Z.ltb_lt in E1; lia|].
   destruct (zlen hmtx <? nl * 4 + (ng - nl) * 2) eqn:E2; [apply Z.ltb_lt in E2; lia|].
@@ -677,8 +677,9 @@ Proof.
     replace (Z.to_nat (4 * gid + 2)) with (4 * Z.to_nat gid + 2)%nat by lia.
     split; reflexivity.
   - apply Z.ltb_ge in E5.
-    destruct (gid <? ng - nl + nl) eqn:E7; [|apply Z.ltb_ge in E7; lia].
     destruct (nl =? 0) eqn:E8; [apply Z.eqb_eq in E8; lia|].
+    destruct (gid <? ng - nl + nl) eqn:E7; [|apply Z.ltb_ge in E7; lia].
+    cbn [negb andb].
     destruct (nl - 1 <? 0) eqn:E9; [apply Z.ltb_lt in E9; lia|].
     destruct (gid - nl <? 0) eqn:E10; [apply Z.ltb_lt in E10; lia|].
     rewrite long_metrics_nth by lia. cbn [fst].
